@@ -501,11 +501,13 @@ def run(ctx):
 
 
 FT = 'sedfitter/fit.py'
+PL = 'sedfitter/plot.py'
 FI = 'sedfitter/fit_info.py'
 SO = 'sedfitter/source/source.py'
 WP = 'sedfitter/write_parameters.py'
 EXF = 'sedfitter/extinction/extinction.py'
 MUST_FIRE = [
+    ('plot converts the stored predicted fluxes in place', [(PL, "                conv.append(10. ** (info.model_fluxes[i, :] - 26. + np.log10(3.e8 / (wav * 1.e-6))))\n", "                mf = info.model_fluxes[i, :]\n                mf += np.log10(3.e8 / (wav * 1.e-6)) - 26.\n                conv.append(10. ** mf)\n")]),
     ('extinction state as bare numbers, default units re-attached without conversion', [(EXF, "            'wav': self.wav,\n            'chi': self.chi,\n", "            'wav': self.wav.value,\n            'chi': self.chi.value,\n"), (EXF, "        self.wav = d['wav']\n        self.chi = d['chi']", "        self.wav = d['wav'] * u.micron\n        self.chi = d['chi'] * u.cm ** 2 / u.g")]),
     ('>= -> >', [(FT, "if s.n_data >= n_data_min:", "if s.n_data > n_data_min:")]),
     ('write before keep', [(FT, "            info.keep(output_format)\n\n            fout.write(info)\n", "            fout.write(info)\n\n            info.keep(output_format)\n")]),
@@ -529,6 +531,7 @@ MUST_FIRE = [
     ('loop ends at the first ineligible source', [(FT, "            fout.write(info)\n\n            t.display()\n", "            fout.write(info)\n\n            t.display()\n\n        else:\n            break\n")]),
 ]
 MUST_SILENT = [
+    ('plot converts a fresh copy of the predicted fluxes in place', [(PL, "                conv.append(10. ** (info.model_fluxes[i, :] - 26. + np.log10(3.e8 / (wav * 1.e-6))))\n", "                mf = info.model_fluxes[i, :] - 26.\n                mf += np.log10(3.e8 / (wav * 1.e-6))\n                conv.append(10. ** mf)\n")]),
     ('a handler for malformed lines (the property is about files of well-formed sources: every one of them still gets its record)', [(FT, "        except EOFError:\n            break\n", "        except EOFError:\n            break\n        except ValueError:\n            continue\n")]),
     ('extinction state as bare numbers in fixed units, converted when saved', [(EXF, "            'wav': self.wav,\n            'chi': self.chi,\n", "            'wav': self.wav.to(u.micron).value,\n            'chi': self.chi.to(u.cm ** 2 / u.g).value,\n"), (EXF, "        self.wav = d['wav']\n        self.chi = d['chi']", "        self.wav = d['wav'] * u.micron\n        self.chi = d['chi'] * u.cm ** 2 / u.g")]),
     ('eligibility written the other way round', [(FT, "if s.n_data >= n_data_min:", "if n_data_min <= s.n_data:")]),
